@@ -2,6 +2,7 @@ package main
 
 import (
 	"encoding/json"
+	"runtime/pprof"
 	"flag"
 	"fmt"
 	"os"
@@ -50,6 +51,7 @@ type propertyConfig struct {
 	Trusted     []string
 	Explain     string
 	Extra       func(prog *Program, tier string) ([]*Obligation, []string) // extra obligations + notes
+	SkipKinds   []string
 	Simple      func(prog *Program, repo string, tier string) ([]simpleObligation, []string) // structurally decided obligations (copy / frame contracts)
 }
 
@@ -79,7 +81,9 @@ func cmdCheck(args []string) {
 		fmt.Fprintf(os.Stderr, "no check registered for %s\n", id)
 		os.Exit(2)
 	}
-	os.Exit(runCheck(cfg, *tier, *repo, seed))
+	code := runCheck(cfg, *tier, *repo, seed)
+	pprof.StopCPUProfile()
+	os.Exit(code)
 }
 
 func loadKnown() KnownFile {
@@ -199,7 +203,21 @@ func runCheck(cfg *propertyConfig, tier, repo string, seed int) int {
 		}
 	}
 	all = append(all, lemmaObs...)
+	tGen := time.Since(t0).Seconds()
 	DischargeAll(all, timeout)
+	if os.Getenv("LVC_TIMING") != "" {
+		fmt.Fprintf(os.Stderr, "timing: load+generate %.1fs, discharge %.1fs\n", tGen, time.Since(t0).Seconds()-tGen)
+		sorted := append([]*Obligation(nil), all...)
+		sort.Slice(sorted, func(i, j int) bool { return sorted[i].Wall > sorted[j].Wall })
+		tot := 0.0
+		for _, o := range sorted {
+			tot += o.Wall
+		}
+		fmt.Fprintf(os.Stderr, "total wall over obligations %.1fs\n", tot)
+		for _, o := range sorted[:15] {
+			fmt.Fprintf(os.Stderr, "  %6.2fs %-8s %-7s %s\n", o.Wall, o.Status, o.Solver, o.Name)
+		}
+	}
 
 	known := loadKnown()
 	isKnown := func(name string) *KnownFinding {
